@@ -212,10 +212,11 @@ func c08Run(c c08Case, r *vp.Rec) error {
 				if n > maxFrame {
 					return fmt.Errorf("DATA frame of %d bytes on stream %d exceeds SETTINGS_MAX_FRAME_SIZE %d", n, f.StreamID, maxFrame)
 				}
-				if n > sm.win {
+				// an empty DATA frame (END_STREAM) may be sent with no window available
+				if n > 0 && n > sm.win {
 					return fmt.Errorf("DATA frame of %d bytes on stream %d exceeds the stream send window %d", n, f.StreamID, sm.win)
 				}
-				if n > connWin {
+				if n > 0 && n > connWin {
 					return fmt.Errorf("DATA frame of %d bytes on stream %d exceeds the connection send window %d", n, f.StreamID, connWin)
 				}
 				sm.win -= n
